@@ -206,7 +206,12 @@ renaming of the load sequence numbers `Mod.seq`):
 * `C05Order.process_determined_by_first_loads` / `process_stable_order_irrelevant`: for arbitrary
   load lists the outcome is a function of the first load of every header, hence invariant under
   rearrangements that keep the loads of each header in their relative order;
-* `C05Order.refused_load_errors_perm`, `load_outcomes_perm`: the refusals are order independent.
+* `C05Order.refused_load_errors_perm`, `load_outcomes_perm`: the refusals are order independent;
+* `C05Order.process_files_eq_accepted` / `process_files_determined_by_accepted`: texts that share
+  headers (atomic `Modules.Parse`) — `processFiles` of a list of texts is `processFiles` of the
+  texts accepted in that order, and orders that accept the same texts have the same outcome;
+  `process_files_order_matters_with_shared_headers`: the accepted texts do depend on the order
+  (first come, first served; same behaviour of the Go code).
 The tie to the code: load-order independence of the *code* is checked by the correspondence
 runner on every generated set (all or 24 / 200 sampled permutations per set; the driver is asked
 for the reversed and a shuffled load order as well). -/
